@@ -9,7 +9,10 @@ if ! git apply --check "$patch" 2>/dev/null; then
 fi
 git apply "$patch" 2>/dev/null || { git apply --3way "$patch" && git reset -q; } || exit 3
 git diff --stat | tail -1
+# the evidence file describes the unchanged tree: keep it across the run on the patched tree
+cp -f /verif/evidence/$prop.json /tmp/try_seed_evidence_$prop.json 2>/dev/null
 cd /verif && ./check "$prop" "$tier" > /tmp/try_seed_$prop.log 2>&1; rc=$?
+[ -f /tmp/try_seed_evidence_$prop.json ] && mv -f /tmp/try_seed_evidence_$prop.json /verif/evidence/$prop.json
 grep -c '^VIOLATION' /tmp/try_seed_$prop.log | sed "s/^/violation lines: /"
 grep -m3 -A1 '^VIOLATION' /tmp/try_seed_$prop.log | cut -c1-400
 tail -1 /tmp/try_seed_$prop.log
